@@ -130,7 +130,7 @@ CHECKS = {
              "assume for it (rdflibHint) is compared with the observed hints. Known findings C07-1..3 are inputs inside the stated space on which "
              "the property fails today.",
         technique="Lean 4 model + table/for-all-URI theorems; three-channel correspondence (writer quads, reader on rdflib order, end-to-end)",
-        design="§4.C07", category="other"),
+        design="§4.C07", category="proof"),
     "C08": dict(
         text="Lean: second pass of _unified_records as placeMerged: nothing lost (every source record is represented by itself or by its "
              "merged record), nothing invented, no duplicates, identity when nothing is merged (c08_nothing_lost, c08_nothing_invented, "
